@@ -20,6 +20,9 @@ pub mod vnet;
 /// declared a busy loop.
 pub const POST_END_POLL_CAP: u64 = 64;
 
+/// Flag raised on the chooser when a scripted message source is polled after its end.
+pub const SOURCE_POLLED_AFTER_END: &str = "source-polled-after-end";
+
 /// Minimal executor: polls with a no-op waker until ready or until `budget` polls were spent.
 pub fn spin_block_on<F: Future>(fut: F, budget: usize) -> Result<F::Output, Stalled> {
     let mut fut = std::pin::pin!(fut);
@@ -259,6 +262,9 @@ impl<T: Unpin> Stream for ScriptStream<T> {
     fn poll_next(mut self: Pin<&mut Self>, cx: &mut Context<'_>) -> Poll<Option<Self::Item>> {
         let this = &mut *self;
         if this.ended {
+            // a `Stream` must not be polled again after it returned `None` (a legitimate stream
+            // may panic or start over): remember it for the oracle
+            this.ch.flag(SOURCE_POLLED_AFTER_END);
             let n = this.polls_after_end.fetch_add(1, Ordering::Relaxed) + 1;
             if n > POST_END_POLL_CAP {
                 std::panic::panic_any(Livelock(format!(
